@@ -500,7 +500,7 @@ def _small_cfgs():
 
 def generate(ctx):
     from props._stores_util import ensure_budget
-    ensure_budget(ctx)
+    ensure_budget(ctx, quick_scale=3.0)
     rng = ctx.rng
     # the defect of DESIGN.md section 6 #6 (repaired) and its neighbours, always
     yield "set", {"cfg": {"x": 1}, "items": [["q.r", 2, False], ["x.y", 3, False]]}
